@@ -110,6 +110,8 @@ def run_group(group, paths, tier):
     env["CARGO_NET_OFFLINE"] = "true"
     env["TRIPPY_VERIF_HARNESS"] = paths["harness_core"]
     env.pop("RUSTUP_TOOLCHAIN", None)
+    env.pop("VERIF_THOROUGH", None)
+    env.update(group.get("env", {}))
     cmd = kani_cmd(group, paths, tdir, export)
     mem_kb = int(group.get("mem_gb", 12) * 1024 * 1024)
     wall_cap = group.get("wall_s", max(900, group.get("timeout_s", 300) * 3))
@@ -211,6 +213,8 @@ def playback(group, paths, harness, scratch_tag="pb"):
     env = dict(os.environ)
     env["CARGO_NET_OFFLINE"] = "true"
     env["TRIPPY_VERIF_HARNESS"] = paths["harness_core"]
+    env.pop("VERIF_THOROUGH", None)
+    env.update(group.get("env", {}))
     g1 = dict(group)
     g1["harnesses"] = [harness]
     g1["exact"] = True
